@@ -232,6 +232,30 @@ def _wire(chk):
     emb = [c for c in fits if any("concat" in repr(p) for p in ef.paths(c.args[0], spine_only=True))] if fits else []
     chk.check(len(emb) == 1, "WIRE.extended.fit", e, emb[0] if emb else e.node,
               construct="inner EOF fitted on the delay-embedded matrix", why="ExtendedEOF no longer fits an EOF on the concatenated shifted copies")
+    # the truncated, shifted copies are not centred any more (each covers another window of the series): the inner
+    # EOF must centre the embedded matrix itself, otherwise its singular values are not those of a covariance matrix
+    if emb:
+        recv = emb[0].func.value
+        ctor = None
+        for p in ef.paths(recv, spine_only=True):
+            if p.atom.kind == "call" and not p.ops and isinstance(p.atom.node, ast.Call):
+                ts = [t for t in ectx.resolve_call(p.atom.node) if t.fn is not None and t.fn.name == "__init__"]
+                if ts:
+                    ctor = (p.atom.node, ts[0].fn)
+        chk.require(ctor is not None, "ExtendedEOF._fit_algorithm: constructor of the inner EOF not found")
+        call, init = ctor
+        kw = {k.arg: k.value for k in call.keywords if k.arg}
+        b = dict(zip([q for q in init.positional_params if q != "self"], call.args))
+        b.update(kw)
+        cen = b.get("center", init.defaults().get("center"))
+        okc = isinstance(cen, ast.Constant) and cen.value is True
+        chk.check(okc, "WIRE.extended.center", e, call, construct="inner EOF of ExtendedEOF centres the embedded matrix (center=True)",
+                  why=f"the inner EOF is built with center={norm(cen) if cen is not None else '?'}: the delay-embedded matrix (truncated, shifted windows) is "
+                      "decomposed without removing its column means, so the explained variances are not eigenvalues of its covariance matrix")
+        for flag in ("standardize", "use_coslat"):
+            v = b.get(flag, init.defaults().get(flag))
+            chk.check(isinstance(v, ast.Constant) and v.value is False, "WIRE.extended.once", e, call,
+                      construct=f"inner EOF of ExtendedEOF: {flag}=False", why=f"{flag} is applied a second time by the inner EOF (the preprocessor of the outer model has applied the user's choice already)")
     adopt = [st for st in ef.statements() if isinstance(st, ast.Assign) and is_self_attr(st.targets[0], "data") and norm(st.value).endswith(".data")]
     chk.check(len(adopt) == 1, "WIRE.extended.data", e, adopt[0] if adopt else e.node,
               construct="self.data = model.data", why="ExtendedEOF no longer adopts the inner EOF's results")
